@@ -139,7 +139,9 @@ impl Check for C09 {
         let shape = SHAPES[(i % SHAPES.len() as u64) as usize];
         let n = 2 + ((i / SHAPES.len() as u64) % 5) as usize; // 2..6
         let mut nm = Namer::new();
-        let names: Vec<String> = (0..n).map(|_| nm.fresh(&mut r, "type")).collect();
+        let mut names: Vec<String> = (0..n).map(|_| nm.fresh(&mut r, "type")).collect();
+        // names that extend one another (User / UserProfile) must occur in both roles
+        r.shuffle(&mut names);
         let dag = gen_dag(&mut r, n, shape);
         let wild = r.chance(1, 5);
         // types
@@ -230,7 +232,7 @@ impl Check for C09 {
         // a new edge between two existing types (index order is a topological order, so
         // "higher depends on lower" keeps the graph acyclic)
         let mut add_edge = None;
-        if i % 3 == 1 {
+        if (i / 6) % 3 == 1 {
             let mut cands = vec![];
             for a in 1..n {
                 for b in 0..a {
@@ -248,7 +250,7 @@ impl Check for C09 {
         // type mappings whose keys are near-misses of project type names (generic
         // instantiations having a project type as prefix): they must not touch anything
         let mut cfg = Cfg::plain("zod");
-        if i % 4 == 2 {
+        if (i / 6) % 4 == 2 {
             for _ in 0..r.range(1, 2) {
                 let t = r.pick(&names).clone();
                 let key = match r.below(4) {
